@@ -58,6 +58,81 @@ type unit struct {
 	from  int
 	hasTo bool
 	to    addr
+	// pad > 0 (kinds O and W): that many extra bytes — an oversized unit.  The model does not see
+	// sizes; it sees the segmentation the decoder's bounded reads induce (scenario.induced).
+	pad int
+}
+
+// readAhead: the size of the bufio.Reader encoding/xml reads a connection through
+const readAhead = 4096
+
+// padString: the unit with its size (only in the #oversized comment of a case, for the replay)
+func (u unit) padString() string {
+	if u.pad > 0 {
+		return u.String() + "~" + strconv.Itoa(u.pad)
+	}
+	return u.String()
+}
+
+func (sc scenario) hasPad() bool {
+	for _, seg := range sc.clear {
+		for _, u := range seg {
+			if u.pad > 0 {
+				return true
+			}
+		}
+	}
+	return false
+}
+
+// spelled: the bytes of every unit of the clear-text script, as exec sends them
+func (sc *scenario) spelled() [][][]byte {
+	// an XML declaration is only legal at the very start of a document: a header that
+	// follows white space is spelled without one
+	prevW := false
+	var out [][][]byte
+	for _, seg := range sc.clear {
+		var us [][]byte
+		for _, u := range seg {
+			if u.kind == 'H' && u.ok && prevW {
+				u.variant = 1
+			}
+			prevW = u.kind == 'W'
+			us = append(us, u.bytes(sc))
+		}
+		out = append(out, us)
+	}
+	return out
+}
+
+// induced: the segmentation of the clear-text script that the decoder's reads induce.  A segment
+// is what the peer sends at once; the decoder reads it through a buffer of readAhead bytes that it
+// fills when it is empty, so a longer segment arrives as several reads, and a unit belongs to the
+// read that completes it (Model/ByteDecoder.lean: boundedReads, absChunks).  Without oversized
+// units every segment fits into one read.
+func (sc scenario) induced() [][]unit {
+	if !sc.hasPad() {
+		return sc.clear
+	}
+	sp := sc.spelled()
+	var out [][]unit
+	for i, seg := range sc.clear {
+		var chunks [][]unit
+		off := 0
+		for k, u := range seg {
+			off += len(sp[i][k])
+			n := 0
+			if off > 0 {
+				n = (off - 1) / readAhead
+			}
+			for len(chunks) <= n {
+				chunks = append(chunks, nil)
+			}
+			chunks[n] = append(chunks[n], u)
+		}
+		out = append(out, chunks...)
+	}
+	return out
 }
 
 // addr is an address of the universe the peer picks the 'to' of its stream headers from,
@@ -245,12 +320,18 @@ type scenario struct {
 	split []int
 }
 
-func (sc scenario) clearField() string {
+func (sc scenario) clearField() string { return clearFieldOf(sc.induced(), false) }
+
+func clearFieldOf(clear [][]unit, pads bool) string {
 	var segs []string
-	for _, s := range sc.clear {
+	for _, s := range clear {
 		var us []string
 		for _, u := range s {
-			us = append(us, u.String())
+			if pads {
+				us = append(us, u.padString())
+			} else {
+				us = append(us, u.String())
+			}
 		}
 		if len(us) > 0 {
 			segs = append(segs, strings.Join(us, ","))
@@ -284,6 +365,11 @@ func (sc scenario) othersField() string {
 // parsing (used by replay)
 
 func parseUnit(s string) (unit, error) {
+	if i := strings.IndexByte(s, '~'); i > 0 {
+		u, err := parseUnit(s[:i])
+		u.pad, _ = strconv.Atoi(s[i+1:])
+		return u, err
+	}
 	if s == "" {
 		return unit{}, fmt.Errorf("empty unit")
 	}
@@ -580,9 +666,12 @@ func (u unit) bytes(sc *scenario) []byte {
 	case 'G':
 		return []byte("<continue xmlns='" + nsTLS + "'/>")
 	case 'O':
+		if u.pad > 0 {
+			return []byte("<proceed xmlns='urn:x:elsewhere' pad='" + strings.Repeat("x", u.pad) + "'/>")
+		}
 		return []byte("<proceed xmlns='urn:x:elsewhere'/>")
 	case 'W':
-		return []byte(" \n")
+		return []byte(strings.Repeat(" ", u.pad) + " \n")
 	case 'M':
 		return []byte("<<")
 	}
@@ -904,8 +993,6 @@ func newSharedNeg(tee int) *sharedNeg {
 }
 
 func (c *ctx) exec1(sc scenario, base *xmpp.StreamFeature, shared *sharedNeg) (res result) {
-	// an XML declaration is only legal at the very start of a document: a header that
-	// follows white space is spelled without one
 	prevW := false
 	spell := func(u unit) []byte {
 		if u.kind == 'H' && u.ok && prevW {
@@ -914,11 +1001,12 @@ func (c *ctx) exec1(sc scenario, base *xmpp.StreamFeature, shared *sharedNeg) (r
 		prevW = u.kind == 'W'
 		return u.bytes(&sc)
 	}
+	sp := sc.spelled()
 	var clear [][]byte
 	for i, seg := range sc.clear {
 		var b []byte
-		for k, u := range seg {
-			ub := spell(u)
+		for k := range seg {
+			ub := sp[i][k]
 			if k == 0 && i > 0 && i < len(sc.split) && sc.split[i] > 0 && len(ub) > 1 && len(clear[i-1]) > 0 {
 				n := sc.split[i]
 				if n > len(ub)-1 {
